@@ -71,6 +71,10 @@ def run(chk, replay=None):
         "numbers that are no such multiples are classified with math/big by the spec's formula and judged by the class table",
         "abstract lengths of the size slice are translated to the length of the real transaction (invariant Translation)",
         "an overflow must surface as an error that is not FeeTooSmallUtxoError (any other error type is accepted)",
+        "the property is one-directional (accept only if fee >= a*size+b): for an Alonzo..Conway transaction with an "
+        "INDEFINITE four-element envelope head an over-estimated fee size (the code keeps |orig|) is recorded as an observation "
+        "(observation_indefinite_envelope_size_over_estimated), while a too small size or an acceptance below the stated "
+        "minimum is still a disagreement; everywhere else the exact size and both directions are enforced",
         "the property is silent on a Dijkstra transaction that arrives with a four-element envelope (the repository "
         "subtracts the is_valid byte there on purpose): its fee size is observed and recorded, not judged",
         "the rule list is observed entry by entry (only the fee / size error types and the entries named "
@@ -78,9 +82,9 @@ def run(chk, replay=None):
     ]
     thorough = chk.tier != "quick"
     grid = "FeeThorough.cfg" if thorough else "Fee.cfg"
-    full = "FeeFull.cfg" if thorough else "FeeFull8.cfg"
+    full = "FeeFull8.cfg"          # W = 2^3, every (a, size, b, fee) as a state
     cfgs = [grid, full] + (["FeeDefect.cfg"] if thorough else [])
-    res = _tlc(cfgs, timeout=540 if thorough else 150, workers="auto" if thorough else None)
+    res = _tlc(cfgs, timeout=560 if thorough else 150, workers=4 if thorough else None)
     for c in (grid, full):
         vlib.tlc_must_pass(res[c], c)
         chk.add_tlc(c, res[c])
@@ -95,13 +99,21 @@ def run(chk, replay=None):
     g, f = res[grid].dir, res[full].dir
     _self_test(chk, drv, os.path.join(g, "size.ndjson"))
     counts = {}
-    for name, d in (("size", g), ("arith", g), ("classes", g), ("arith_full", f)):
-        path = os.path.join(d, name.split("_")[0] + ".ndjson")
-        with open(path) as fh:
+    files = [("size", g, "size.ndjson"), ("arith", g, "arith.ndjson"), ("classes", g, "classes.ndjson"),
+             ("arith_full_W8", f, "arith.ndjson")]
+    if thorough:
+        # the W = 2^4 full grid is one quantified ASSUME of FeeThorough.cfg (its
+        # 65536 points are not states); its rows are replayed like the others
+        files.append(("arith_full_W16", g, "arithfull.ndjson"))
+        chk.extra["full_grid_theorem"] = "FullGridTheorem(16): 16^4 = 65536 points, evaluated by TLC as an assumption (not counted as states)"
+    for name, d, fn in files:
+        with open(os.path.join(d, fn)) as fh:
             counts[name] = sum(1 for line in fh if line.strip())
     chk.extra["tlc_rows"] = counts
-    vlib.run_driver(chk, drv, ["size", "all", os.path.join(g, "size.ndjson")], timeout=600)
+    vlib.run_driver(chk, drv, ["size", "all", os.path.join(g, "size.ndjson")], timeout=900)
     vlib.run_driver(chk, drv, ["arith", os.path.join(g, "arith.ndjson")], timeout=900)
     vlib.run_driver(chk, drv, ["arith", os.path.join(f, "arith.ndjson")], timeout=600)
+    if thorough:
+        vlib.run_driver(chk, drv, ["arith", os.path.join(g, "arithfull.ndjson")], timeout=600)
     vlib.run_driver(chk, drv, ["classes", os.path.join(g, "classes.ndjson")], timeout=600)
     chk.exhaustive = False
